@@ -182,7 +182,7 @@ let crash_match (model : string) (impl : string) : bool =
           let head = String.sub impl 0 i and tail = String.sub impl (i + 1) (String.length impl - i - 1) in
           (starts_with "cr(ok" head || starts_with "cr(skip" head || starts_with "fl(ok" head || starts_with "fl(skip" head)
           && (let mt = String.sub model 3 (String.length model - 3) in
-              tail = mt || (mt = "*" && not (starts_with "panic" tail)))
+              tail = mt || (mt = "*" && not (starts_with "panic" tail)) || entrywise_match mt tail)
       | None -> false)
 
 let classify_m1 (st : mstate) (toks : string list) (model : string) (impl : string) : string option =
